@@ -2,4 +2,4 @@
 # runs every mutants/<ID>-*.patch (or those matching $1) against its check in parallel; prints a table
 cd "$(dirname "$0")/.."
 pat="${1:-C}"
-ls mutants/${pat}*.patch | xargs -P 4 -I{} bash -c 'p={}; id=$(basename $p | cut -d- -f1); out=$(tools/mutant_run.sh $p $id 2>&1); rc=$?; v=$(echo "$out" | grep -c "^VIOLATION"); echo "$(basename $p) rc=$rc violations_lines=$v $(echo "$out" | grep -m1 "^violation-mechanism" | cut -c1-160)"'
+ls mutants/${pat}*.patch | xargs -P 3 -I{} bash -c 'p={}; id=$(basename $p | cut -d- -f1); out=$(tools/mutant_run.sh $p $id 2>&1); rc=$?; v=$(echo "$out" | grep -c "^VIOLATION"); echo "$(basename $p) rc=$rc violations_lines=$v $(echo "$out" | grep -m1 "^violation-mechanism" | cut -c1-160)"'
